@@ -27,6 +27,12 @@ ASSUME = [
     "(features computed with e2e_pb2 directly), encryption/decryption of message stanzas (C03; outgoing messages are "
     "observed where they leave the protocol group), the axolotl layers' own key-upload/fetch iq traffic (ignored in "
     "comparisons), error replies without an error callback (C08)",
+    "re-entrant application: for every registering request (with/without encryption layers, no/all optional modules, "
+    "first answer result/error, answer to the retry result/error) the rig's top layer sends the SAME request entity "
+    "again from inside its receive() of the answer; the answer to the retried request must give exactly one entity "
+    "of the documented class and its duplicate what the same stanza gives on a stack without pending requests; "
+    "control: the same retry after the handler returned, compared with the model's run_trace (the model has no "
+    "re-entrancy: the inside variant is judged by the oracle only)",
     "the model describes the code with fixes/C06-unregister-iq-routed.patch and "
     "fixes/C07-encrypt-ack-participant.patch applied (variant `repaired`); the unrepaired variant is modelled too and "
     "named in the replay when the tree behaves like it",
@@ -57,6 +63,7 @@ def run(ctx):
             C.reply_sweep(ctx, model, 1 if quick else 6, profile, stats)
             C.traffic_sweep(ctx, model, 1 if quick else 4, profile, stats)
             C.inside_sweep(ctx, model, 1 if quick else 4, profile, stats)
+            C.handler_retry_sweep(ctx, model, 1 if quick else 4, profile, stats)
             C.retry_sweep(ctx, model, 2 if quick else 20, profile, stats)
             C.history_sweep(ctx, model, lambda k: True, 25 if quick else 400, stats, judge_answers=False)
             C.history_sweep(ctx, model, lambda k: True, 40 if quick else 500, stats, judge_answers=False, length=(4, 10),
@@ -94,6 +101,7 @@ def run(ctx):
     ctx.coverage["request_reply_cases"] = stats["reply_cases"]
     ctx.coverage["request_traffic_reply_cases"] = stats.get("traffic_cases", 0)
     ctx.coverage["reply_inside_send_cases"] = stats.get("inside_cases", 0)
+    ctx.coverage["retry_from_inside_the_answer_handler_cases"] = stats.get("handler_retry_cases", {})
     ctx.coverage["histories_on_one_stack"] = {"histories": stats.get("histories", 0), "steps": stats.get("history_steps", 0),
                                               "both_directions_pairs": stats.get("history_direction_pairs", 0)}
     ctx.coverage["cases_per_kind"] = min(stats["per_kind"].values()) if stats["per_kind"] else 0
